@@ -15,3 +15,7 @@ func nodeString(fset *token.FileSet, n ast.Node) string {
 	printer.Fprint(&b, fset, n)
 	return b.String()
 }
+
+func isWordChar(c byte) bool {
+	return c >= 'a' && c <= 'z' || c >= 'A' && c <= 'Z' || c >= '0' && c <= '9' || c == '_'
+}
